@@ -134,21 +134,19 @@ const EXTERN_MAX_DEPTH: u32 = 6;
 
 impl<'tcx> Cx<'tcx> {
     fn path(&self, did: DefId) -> String {
-        let s = ty::print::with_no_visible_paths!(ty::print::with_no_trimmed_paths!(self.tcx.def_path_str(did)));
-        if did.is_local() {
-            format!("{}::{}", self.crate_name, s)
-        } else {
-            s
-        }
+        // canonical across crates: `crate::` is spelled out as the crate's own name, so a local item prints
+        // exactly as it does when seen from a dependent crate
+        let s = ty::print::with_crate_prefix!(ty::print::with_no_visible_paths!(
+            ty::print::with_no_trimmed_paths!(self.tcx.def_path_str(did))
+        ));
+        s.replace("crate::", &format!("{}::", self.crate_name))
     }
 
     fn path_with_args(&self, did: DefId, args: GenericArgsRef<'tcx>) -> String {
-        let s = ty::print::with_no_visible_paths!(ty::print::with_no_trimmed_paths!(self.tcx.def_path_str_with_args(did, args)));
-        if did.is_local() {
-            format!("{}::{}", self.crate_name, s)
-        } else {
-            s
-        }
+        let s = ty::print::with_crate_prefix!(ty::print::with_no_visible_paths!(
+            ty::print::with_no_trimmed_paths!(self.tcx.def_path_str_with_args(did, args))
+        ));
+        s.replace("crate::", &format!("{}::", self.crate_name))
     }
 
     fn span(&mut self, sp: Span) -> String {
